@@ -168,7 +168,7 @@ def fill(ctx):
     n = q.sub(atom(("getattr", data, "shape")), 0)
     tot = sum((q.sub(atom(("getattr", atom(("sub", data, m_)), "shape")), 0) for m_ in masks), const(0)) if len(masks) == 2 else None
     leafg = T.mk_cmp("==", axis, T.NONE)
-    fresh = T.mk_or([atom(("notin", P("tree_id"), atom(("mcall", atom(("getattr", node, "num_samples_in_compared_subtrees")), "keys", (), ())))), P("reset")])
+    fresh = T.mk_or([T.mk_not(atom(("in", P("tree_id"), atom(("getattr", node, "num_samples_in_compared_subtrees"))))), P("reset")])
     for isleaf, val, lab in ((True, n, "leaf"), (False, tot, "inner node")):
         mm = [e for e in muts if (any(q.pred_equiv(g, leafg) for g in guards(e))) == isleaf]
         ow = [e for e in mm if e.aug is None]
@@ -473,7 +473,7 @@ def plotly(ctx):
     site2 = NODE + ".as_flattened_array"
     tr = static_trace(ctx, NODE, "as_flattened_array")
     node = P("node")
-    keys = atom(("mcall", atom(("getattr", node, "num_samples_in_compared_subtrees")), "keys", (), ()))
+    keys = atom(("getattr", node, "num_samples_in_compared_subtrees"))  # `k in d.keys()` is normalised to `k in d`
     ap2 = [e for e in tr.of("localmut") if e.name == "output" and e.how == "method:append" and len(e.stack) == 1]
     for e in ap2:
         g = q.guards_in(e, site2)
